@@ -157,19 +157,19 @@ def group_evaluator(sup):
     maps = {}
     for g in sup.G:
         idx = g.indexmap[0]
-        if sorted(idx) != list(range(N)): bad.append("indexmap is not a permutation"); continue
+        if sorted(idx) != list(range(N)): bad.append(("perm", "indexmap is not a permutation")); continue
         d = np.dot(sup.pos, g.rot.T) + g.trans - sup.pos[list(idx)]
         d -= np.round(d)
-        if np.abs(d).max() > TOL: bad.append("rot.pos[i]+trans is not pos[indexmap[i]] (max %.2e)" % np.abs(d).max())
-        if any(lab[idx[i]] != lab[i] for i in range(N)): bad.append("operation mixes sublattices")
+        if np.abs(d).max() > TOL: bad.append(("geometry", "rot.pos[i]+trans is not pos[indexmap[i]] (max %.2e)" % np.abs(d).max()))
+        if any(lab[idx[i]] != lab[i] for i in range(N)): bad.append(("labels", "operation mixes sublattices"))
         if np.abs(np.dot(sup.lattice, g.rot) - np.dot(g.cartrot, sup.lattice)).max() > TOL:
-            bad.append("rot and cartrot disagree")
-        if np.abs(np.dot(g.cartrot, g.cartrot.T) - np.eye(3)).max() > TOL: bad.append("cartrot not orthogonal")
+            bad.append(("cartrot", "rot and cartrot disagree"))
+        if np.abs(np.dot(g.cartrot, g.cartrot.T) - np.eye(3)).max() > TOL: bad.append(("cartrot", "cartrot not orthogonal"))
         key = (tuple(g.rot.flatten().tolist()), tuple(np.round(g.trans * 1e6).astype(int) % 1000000))
-        if key in maps: bad.append("operation listed twice")
+        if key in maps: bad.append(("duplicate", "operation listed twice"))
         maps[key] = idx
     idxset = set(maps.values())
-    if tuple(range(N)) not in idxset: bad.append("identity missing")
+    if tuple(range(N)) not in idxset: bad.append(("identity", "identity missing"))
     return bad, idxset
 
 
@@ -265,7 +265,7 @@ def run(ck):
         kind = "%s-N%d-G%d%s%s" % (label.split("-")[0], N, len(sup.G), "-int" if inter else "", "-sol%d" % ns if ns else "")
         # ---- A. the group -------------------------------------------------------------------
         bad, idxset = group_evaluator(sup)
-        for b in bad: violation("c27-group-" + b.split(" ")[0], "%s superlatt %s: %s" % (label, sl.tolist(), b), dict(cfg=spec, what=b))
+        for k_, b in bad: violation("c27-group-" + k_, "%s superlatt %s: %s" % (label, sl.tolist(), b), dict(cfg=spec, what=b))
         nb = closure_evaluator(rng, idxset, ck.n(40, 200))
         if nb: violation("c27-group-closure", "%s: site maps of G not closed under product/inverse (%d failures)" % (label, nb), dict(cfg=spec))
         if len(sup.G) != expected_order(sup):
@@ -382,3 +382,38 @@ def run(ck):
     if hasattr(ck, "broken_proof") and ck.violations:
         ck.violation("proof obligation / correspondence no longer checks: " + ck.broken_proof.split("\n")[0],
                      {"obligation": ck.broken_proof}, key="c27-broken-obligation", no_input=True)
+
+
+def replay(ck, path):
+    """re-run a recorded pair / operation on the implementation"""
+    import json
+    from onsager import supercell, crystal
+    doc = json.load(open(path))
+    r = doc["replay"]
+    c = r["cfg"]
+    crys = crystal.Crystal(np.array(c["lattice"]), [[np.array(u) for u in b] for b in c["basis"]])
+    with warnings.catch_warnings():
+        warnings.simplefilter("ignore")
+        sup = supercell.Supercell(crys, np.array(c["superlatt"], dtype=int), interstitial=tuple(c["interstitial"]), Nsolute=c["Nsolute"])
+    bad = 0
+    if "self_state" in r:
+        A, B = sup.copy(), sup.copy()
+        for S, st in ((A, r["self_state"]), (B, r["other_state"])):
+            S.occ = np.array(st[0], dtype=int); S.chemorder = [list(l) for l in st[1]]
+        Gidx = sorted(set(tuple(g.indexmap[0]) for g in sup.G))
+        brute = [idx for idx in Gidx if maps_occ(idx, A, B)]
+        try:
+            g, m = A.equivalencemap(B)
+            print("equivalencemap ->", None if g is None else (list(g.indexmap[0]), m), "; operations mapping the occupations:", len(brute))
+            if g is None and brute: bad = 1
+            if g is not None:
+                msg = check_result(A, B, g, m)
+                if msg: print("unsound:", msg); bad = 1
+        except Exception as e:
+            print("equivalencemap raised %r; operations mapping the occupations: %d" % (e, len(brute))); bad = 1
+    else:
+        msgs, _ = group_evaluator(sup)
+        for k_, m in msgs: print("group [%s]:" % k_, m)
+        bad = 1 if msgs else 0
+    print("VIOLATION reproduced" if bad else "not reproduced")
+    return bad
